@@ -34,46 +34,37 @@ def topo_order(scn):
 
 
 def classify(scn, lost=()):
-    """Outcome of every job: 'successful' | 'failed' | 'canceled' | 'missing'.
+    """Outcome of every job: 'successful' | 'failed' | 'canceled' | 'missing'  (least fixpoint).
 
-    A flagged job is canceled iff some blocker is failed or canceled.  Otherwise it runs once all blockers
-    have an outcome, and is successful iff its exit code is 0.  Jobs in `lost` (their batch never ran them)
-    and jobs on or behind a dependency cycle never get an outcome: 'missing'; a job that waits for a missing
-    job is missing too unless it is flagged and another of its blockers failed / was canceled (then the
-    cancellation may or may not have been detected before the wait became permanent: see `maybe_canceled`).
+    A job gets an outcome by one of two rules, applied until nothing changes:
+      (a) it is flagged cancel_on_blocking_job_failure and some blocker already has the outcome failed or
+          canceled -> 'canceled' (even when another blocker never gets an outcome: the failing blocker's result is
+          seen while the job is still waiting; this also breaks dependency cycles);
+      (b) every blocker has an outcome and rule (a) does not apply -> it runs: 'successful' iff exit code 0.
+    Jobs in `lost` (handed to a batch that never recorded them) never get an outcome; every job left without an
+    outcome (lost, on or behind an unbroken cycle, waiting for such a job) is 'missing'.
+    Returns (classes, set()) -- the second element is kept for API compatibility.
     """
     jobs = job_map(scn)
-    order, cyclic = topo_order(scn)
-    out = {}
-    maybe = set()  # jobs for which both 'canceled' and 'missing' are acceptable
     lost = set(lost)
-    for n in order:
-        j = jobs[n]
-        blk = [out[b] for b in j["blocked_by"] if b in jobs]
-        bad = any(o in ("failed", "canceled") for o in blk)
-        maybe_bad = any(b in maybe for b in j["blocked_by"])
-        miss = any(o == "missing" for o in blk)
-        if j["cancel"] and bad and not miss:
-            out[n] = "canceled"
-        elif j["cancel"] and bad and miss:
-            out[n] = "canceled"
-            maybe.add(n)
-        elif miss:
-            out[n] = "missing"
-            if j["cancel"] and maybe_bad:
-                maybe.add(n)
-        elif n in lost:
-            out[n] = "missing"
-        else:
-            if j["cancel"] and maybe_bad:
-                # a blocker is canceled-or-missing: this job is then canceled-or-missing as well
-                out[n] = "missing"
-                maybe.add(n)
-            else:
+    out = {}
+    changed = True
+    while changed:
+        changed = False
+        for n in sorted(jobs):
+            if n in out or n in lost:
+                continue
+            j = jobs[n]
+            blk = [b for b in j["blocked_by"] if b in jobs]
+            if j["cancel"] and any(out.get(b) in ("failed", "canceled") for b in blk):
+                out[n] = "canceled"
+                changed = True
+            elif all(b in out for b in blk):
                 out[n] = "successful" if j["rc"] == 0 else "failed"
-    for n in cyclic:
-        out[n] = "missing"
-    return out, maybe
+                changed = True
+    for n in jobs:
+        out.setdefault(n, "missing")
+    return out, set()
 
 
 def classify_simple(scn):
